@@ -101,6 +101,20 @@ def main():
         traceback.print_exc()
         print('CHECK-BROKEN: exception in the correspondence run')
         sys.exit(2)
+    # first stage of the correspondence: the corpus of source texts taken from the demonstrations of the stored seeded
+    # changes of this property (tools/seedcorpus.py), impl vs model
+    try:
+        import seedcorpus
+        if model_ok:
+            ents = seedcorpus.load(prop)
+            n_c, dis_c, cnt_c = seedcorpus.compare(ents)
+            res['evaluations'] = res.get('evaluations', 0) + n_c
+            res.setdefault('distribution', {})['seed_demo_corpus'] = {'sources': n_c, 'outcomes': dict(cnt_c), 'impl_vs_model_disagreements': len(dis_c)}
+            res['disagreements'] = [{'corpus': 'seed demonstrations', **d} for d in dis_c] + list(res.get('disagreements', []))
+    except Exception:
+        traceback.print_exc()
+        print('CHECK-BROKEN: exception in the seed-corpus stage')
+        sys.exit(2)
     # res: dict(evaluations, distinct_nontrivial, rule, samples, exhaustive, distribution,
     #           disagreements=[{case, impl, model}], violations=[{what, case, impl, expected, key}])
     for d in res.get('disagreements', [])[:50]:
